@@ -671,6 +671,7 @@ class Engine:
         self.cur_state = st
         k = rv.kind
         if k == 'use': return self.operand(st, fr, rv.args[0])
+        if k == 'tls': raise Unsupported('thread-local state is not modelled (%s)' % rv.extra)
         if k == 'ref':
             cell, path = self.resolve(st, fr, rv.args[0])
             if self._sub is not None: return SubRef(cell, path, self._sub.off, self._sub.len)
